@@ -224,10 +224,23 @@ def run_impl(name, dtype, rows64, shape, api=0):
     n, g, a = U.MATN[name], U.GDIM[name], U.ADIM[name]
     data = torch.tensor(rows64, dtype=torch.float64).reshape(tuple(shape) + (a,)).to(D)
     problems = []
-    if api == 3:     # non-contiguous view as input
-        big = torch.zeros(tuple(shape) + (2 * a,), dtype=D)
+    big = big_before = None
+    if api == 3:     # non-contiguous view as input (stride 2 in the last dim)
+        big = torch.full(tuple(shape) + (2 * a,), 7.5, dtype=D)
         big[..., ::2] = data
         data = big[..., ::2]
+    elif api == 5 and len(shape) >= 1:   # every second batch row of a larger buffer
+        big = torch.full((2 * shape[0] + 1,) + tuple(shape[1:]) + (a,), -3.25, dtype=D)
+        big[1::2] = data
+        data = big[1::2]
+    elif api == 6 and len(shape) >= 2:   # transposed batch dims
+        big = data.transpose(0, 1).contiguous()
+        data = big.transpose(0, 1)
+    elif api == 7 and rows64 and all(r == rows64[0] for r in rows64):   # expanded (stride 0) batch
+        big = torch.tensor(rows64[0], dtype=torch.float64).to(D)
+        data = big.expand(tuple(shape) + (a,))
+    if big is not None:
+        big_before = big.clone()
     if api == 4:     # an input that requires grad (forward values must be the same)
         data = data.clone().requires_grad_(True)
     if api == 2:     # wrapper constructors of utils.py
@@ -248,6 +261,8 @@ def run_impl(name, dtype, rows64, shape, api=0):
         return None, None, problems, None
     if not torch.equal(torch.Tensor.as_subclass(x, torch.Tensor).detach(), before):
         problems.append("purity: Exp modified its argument")
+    if big is not None and not torch.equal(big, big_before):
+        problems.append("purity: Exp/matrix modified the buffer its argument is a view of")
     return T.detach().double().reshape(-1, g), M.detach().double().reshape(-1, n * n), problems, x
 
 
@@ -400,28 +415,30 @@ def run_random(ctx: Ctx, n_batches, lines, metas):
             shape = (rng.randint(2, 12),)
         n = int(math.prod(shape))
         rows = [gen_item(rng, name, e) for _ in range(n)]
-        check_batch(ctx, "random", name, dtype, rows, shape, rng.randrange(5), lines, metas)
+        check_batch(ctx, "random", name, dtype, rows, shape, rng.randrange(7), lines, metas)
 
 
 def run_repeat(ctx: Ctx, n_rounds, lines, metas):
-    """the same shape is reused many times in a row with different regime content (stale masks / caches)"""
+    """the same batch shape is reused many times in a row while everything else changes between the calls: regime
+    content (all small / all large / mixed), algebra type, dtype, way of calling — a cache keyed by too little
+    (shape only, shape+dtype, …) or a mask kept from an earlier call only shows in such a history"""
     rng = ctx.rng
     for _ in range(n_rounds):
-        name = rng.choice(U.GROUPS)
-        dtype = rng.choice(["float64", "float32"])
-        e = common.EPS[dtype]
         shape = (rng.randint(1, 4),)
-        for k in range(4):
+        order = [(nm, dt_) for nm in U.GROUPS for dt_ in ("float64", "float32")]
+        rng.shuffle(order)
+        for k, (name, dtype) in enumerate(order[:6]):
+            e = common.EPS[dtype]
             rows = []
-            for _ in range(shape[0]):
-                if k % 2 == 0:   # all small
+            for i in range(shape[0]):
+                small = (k % 3 == 0) or (k % 3 == 2 and i % 2 == 0)
+                if small:
                     rows.append(make_item(rng, name, e, rng.choice([0.0, e / 2, 1e-30]), rng.choice([0.0, e / 2, -e / 2]),
                                           U.gen_mag(rng, e, TAU_MAX)))
-                else:            # all large
+                else:
                     rows.append(make_item(rng, name, e, rng.uniform(0.1, THETA_MAX), rng.choice([-1, 1]) * rng.uniform(0.1, 3.0),
                                           U.gen_mag(rng, e, TAU_MAX)))
-            check_batch(ctx, "repeat", name, dtype, rows, shape, 0, lines, metas, extra={"round": k})
-
+            check_batch(ctx, "repeat", name, dtype, rows, shape, rng.randrange(3), lines, metas, extra={"round": k})
 
 
 # ----------------------------------------------------------------------------- deterministic corner corpus
@@ -430,13 +447,19 @@ def corner_values(e):
     """switch-over point -1 ulp / exact / +1 ulp, zero, tiny, sqrt(eps), O(1), extremes — all exactly representable"""
     up, dn = e * (1 + e), e * (1 - e / 2)
     se = math.sqrt(e)
-    th = [0.0, 1e-30, dn, e, up, 2 * e, 64 * e, se, 1e-3, 1.0, math.pi, math.pi * (1 + 2 * e), 2 * math.pi, 7.0, THETA_MAX]
-    sg_pos = [1e-30, dn, e, up, 2 * e, 64 * e, e * 2.0 ** 20, se, 1e-3, 1.0, SIGMA_MAX]
+    sub, tiny = (5e-324, 1e-300) if e < 1e-10 else (1.401298464324817e-45, 1e-36)   # smallest subnormal, near the bottom
+    th = [0.0, sub, tiny, 1e-30, dn, e, up, 2 * e, 64 * e, se, 1e-3, 1.0, math.pi, math.pi * (1 + 2 * e), 2 * math.pi, 7.0, THETA_MAX]
+    sg_pos = [sub, tiny, 1e-30, dn, e, up, 2 * e, 64 * e, e * 2.0 ** 20, se, 1e-3, 1.0, SIGMA_MAX]
     return th, [0.0] + sg_pos + [-v for v in sg_pos]
 
 
 CORNER_DIRS = [(0.0, 0.0, 1.0), (0.36, -0.48, 0.8)]
-CORNER_TAUS = [(0.0, 0.0, 0.0), (1.0, -2.0, 0.5), (TAU_MAX, 0.0, 0.0), (1e-30, 1e-30, -1e-30), (-0.3, 0.4, 1e-9), (2e6, -1e9, 3e3)]
+CORNER_TAUS = [(0.0, 0.0, 0.0), (1.0, -2.0, 0.5), (TAU_MAX, 0.0, 0.0), (1e-30, 1e-30, -1e-30), (-0.3, 0.4, 1e-9), (2e6, -1e9, 3e3),
+               (1e30, -1e25, 1e28), (1e-36, 0.0, -2e-36)]
+
+
+def up_of(e):
+    return e * (1 + e)
 
 
 def corpus_batches():
@@ -477,7 +500,25 @@ def corpus_batches():
                 items.append(out)
             for i in range(0, len(items), 23):
                 rows = items[i:i + 23]
-                yield name, dtype, rows, (len(rows),), (i // 23) % 5
+                yield name, dtype, rows, (len(rows),), (i // 23) % 6
+            # mixed-regime pairs: every ordered pair of representative items, each item alone, all together in both
+            # orders (a batch-level any()/all() decision shows in exactly one of these), expanded and view inputs
+            reps = []
+            for th, sg, tk in ((0.0, 0.0, 1), (e / 2, -e / 2, 1), (up_of(e), up_of(e), 4), (1e-9, 3e-9, 1), (1.0, -1.0, 5),
+                               (4.0, 3.0, 2), (0.0, 1.0, 1), (2.0, 0.0, 1)):
+                reps.append((list(CORNER_TAUS[tk]) if has_t else []) + [th * d[0], th * d[1], th * d[2]] + ([sg] if has_s else []))
+            for r in reps:
+                yield name, dtype, [r], (1,), 0
+                yield name, dtype, [r, r, r], (3,), 7           # expanded (stride 0) input
+                yield name, dtype, [r] * 4, (2, 2), 7
+            for i1, r1 in enumerate(reps):
+                for i2, r2 in enumerate(reps):
+                    if i1 != i2:
+                        yield name, dtype, [r1, r2], (2,), 0
+            yield name, dtype, reps, (len(reps),), 5
+            yield name, dtype, reps[::-1], (len(reps),), 3
+            yield name, dtype, reps, (2, 4), 6
+            yield name, dtype, reps[::-1], (4, 2), 5
             # degenerate shapes
             z = [0.0] * U.ADIM[name]
             one = items[len(items) // 2]
@@ -485,7 +526,27 @@ def corpus_batches():
                 yield name, dtype, rows, shape, 0
 
 
+def reuse_history():
+    """seed-independent call history under ONE batch shape: types, dtypes and regimes alternate between the calls"""
+    d = CORNER_DIRS[1]
+    k = 0
+    for rnd in range(2):
+        for name in ("SE3", "Sim3", "SO3", "RxSO3", "Sim3", "SE3"):
+            for dtype in (("float64", "float32") if rnd == 0 else ("float32", "float64")):
+                e = common.EPS[dtype]
+                has_s, has_t = name in ("RxSO3", "Sim3"), name in ("SE3", "Sim3")
+                rows = []
+                for i in range(3):
+                    small = (k % 3 == 0) or (k % 3 == 2 and i == 1)
+                    th, sg = ((e / 2, -e / 2) if small else (1.0 + i, 0.5 * (i + 1) * (-1) ** k))
+                    rows.append((list(CORNER_TAUS[1]) if has_t else []) + [th * d[0], th * d[1], th * d[2]] + ([sg] if has_s else []))
+                yield name, dtype, rows, (3,), 0
+                k += 1
+
+
 def run_corpus(ctx: Ctx, lines, metas):
+    for name, dtype, rows, shape, api in reuse_history():
+        check_batch(ctx, "reuse", name, dtype, rows, shape, api, lines, metas)
     for name, dtype, rows, shape, api in corpus_batches():
         check_batch(ctx, "corpus", name, dtype, rows, shape, api, lines, metas)
 
@@ -608,7 +669,8 @@ def confirm_disagreements(ctx: Ctx, limit=12):
 def run(ctx: Ctx):
     from . import util_lie as _UL
     def _reads(name):
-        return {"Exp": lambda o: o.Exp().tensor(), "matrix": lambda o: o.matrix()}
+        return {"Exp": lambda o: o.Exp().tensor(), "matrix": lambda o: o.matrix(), "pp.Exp": lambda o: U.pp().Exp(o).tensor(),
+                "rotation": lambda o: o.rotation().tensor()}
     _UL.persistent_probe(ctx, _reads, algebra=True)
     lines, metas = [], []
     run_corpus(ctx, lines, metas)
